@@ -94,6 +94,11 @@ def generate(tier, rng):
                     elif k % 4 == 0:
                         # the same table on a model whose inflow instant and quadrature order were assigned after construction
                         cases.append(dict(cases[-1], late_rule=True))
+                    else:
+                        # the same table when the caller overwrites its parameter arrays after handing them over (through the
+                        # constructor, or through set_prms on a model that held other parameters)
+                        cases.append(dict(cases[-1], touch_params=True))
+                        cases.append(dict(cases[-1], preset=1.25))
     return cases
 
 
